@@ -1,6 +1,7 @@
 // Native replay for C12: real dynamic_bitset.cpp + headers, libstdc++ with _GLIBCXX_ASSERTIONS (vector<bool>::operator[] range
 // assertion), ASan/UBSan.  argv: op key=value ...   bits=<0/1 string, index 0 first> obits=<...> pos= k= v=
 #include "library/container/dynamic_bitset.cpp"
+#include <bitset>
 #include <cstdio>
 #include <cstdlib>
 #include <map>
@@ -19,7 +20,10 @@ int main(int argc, char** argv) {
   std::vector<bool> b = V("bits"), c = V("obits"); DynamicBitset d(b), o(c); size_t n = b.size(), m = c.size(), pos = Z("pos"), k = Z("k"); bool v = Z("v");
   auto bit = [&](const std::vector<bool>& x, size_t i) { return i < x.size() ? (bool)x[i] : false; };
   try {
-  if (op == "test" || op == "index_const") { bool thrown = false, r = false; try { r = (op == "test") ? d.test(pos) : static_cast<const DynamicBitset&>(d)[pos]; } catch (const std::out_of_range&) { thrown = true; }
+  if (op == "assign_vec") { d = c; if (d.size() != m || S(d) != S(c)) return fail("operator=(vector<bool>): " + S(d) + " != " + S(c)); }
+  else if (op == "ctor_bitset" || op == "assign_bitset") { std::bitset<11> bs; for (size_t i = 0; i < 11; ++i) bs[i] = bit(c, i); std::vector<bool> e; for (size_t i = 0; i < 11; ++i) e.push_back(bs[i]);
+    if (op == "ctor_bitset") { DynamicBitset x(bs); if (S(x) != S(e)) return fail("DynamicBitset(bitset<11>): " + S(x) + " != " + S(e)); } else { d = bs; if (S(d) != S(e)) return fail("operator=(bitset<11>): " + S(d) + " != " + S(e)); } }
+  else if (op == "test" || op == "index_const") { bool thrown = false, r = false; try { r = (op == "test") ? d.test(pos) : static_cast<const DynamicBitset&>(d)[pos]; } catch (const std::out_of_range&) { thrown = true; }
     if (pos < n ? (thrown || r != b[pos]) : !thrown) return fail(op + ": wrong result / missing exception"); }
   else if (op == "queries") { size_t cnt = 0; for (bool x : b) cnt += x; if (d.size() != n || d.count() != cnt || d.any() != (cnt > 0) || d.none() != (cnt == 0) || d.all() != (cnt == n)) return fail("size/count/any/none/all disagree with the reference"); }
   else if (op == "to_ulong") { unsigned long e = 0; bool high = false; for (size_t i = 0; i < n; ++i) if (b[i]) { if (i >= 64) high = true; else e |= 1UL << i; }
